@@ -44,9 +44,12 @@
 //       - xc_wfa_later_writes: samples written after the call do not extend or shorten the wait.
 //   Everything goes through Writer::process_writer_command / Writer::handle_ack_nack /
 //   Writer::reader_lost / Writer::participant_lost / Writer::update_reader_proxy; the observation is try_recv on the
-//   receiving side of the caller's sync_status_channel.  Not covered: the DataWriter-side timeout
-//   and the future (see "unverified" in obligations/C20.json); overlapping waits (assumption
-//   ackw.assume.no_overlap: every wait in this module is issued while no other one is armed).
+//   receiving side of the caller's sync_status_channel.
+//   (3) datawriter_side::xc_dw_*: the REAL with_key::DataWriter (wait_for_acknowledgments and
+//       async_wait_for_acknowledgments) with a captured command channel; bound and oracle stated
+//       at that submodule.
+//   Not covered: overlapping waits (assumption ackw.assume.no_overlap: every wait in this module
+//   is issued while no other one is armed); waker registration of the future (C13).
 #[cfg(test)]
 mod verif_xc_ack_waiter {
   use std::{
@@ -951,7 +954,7 @@ mod verif_xc_ack_waiter {
           }
           let token_before_answer = rep.token_at.is_some_and(|t| t <= returned);
           if answer {
-            assert!(token_before_answer, "XC-WITNESS label=wfa.sync.only_if {}: answered Ok(true) (\"all acknowledged\") after {} ms although no success token had been sent for this wait (command received by the writer side: {}, token sent: {})", ctx, took.as_millis(), rep.command_seen,
+            assert!(token_before_answer, "XC-WITNESS label=wfa.sync.only_if {}: answered Ok(true) = all acknowledged, after {} ms although no success token had been sent for this wait (command received by the writer side: {}, token sent: {})", ctx, took.as_millis(), rep.command_seen,
               match rep.token_at { None => "never".to_string(), Some(t) => format!("{} ms after the answer", (t - returned).as_millis()) });
           }
           assert!(took <= max_wait + SLACK, "XC-WITNESS label=wfa.sync.timeout {}: answered Ok({}) only after {} ms", ctx, answer, took.as_millis());
